@@ -112,6 +112,9 @@ type LoopSummary struct {
 	headState    *State
 }
 
+// CurPred is the path predicate of the instruction being interpreted.
+func (in *Interp) CurPred() bdd.Node { return in.curPred }
+
 // EntryStateOf is the value of a location when the loop is entered.
 func (in *Interp) EntryStateOf(ls *LoopSummary, root, path string) Value {
 	if v, ok := ls.headState.Get(root, path); ok {
@@ -151,6 +154,8 @@ type Interp struct {
 	// SharedRoots are local cells shared with another goroutine: every load
 	// yields a fresh unknown value produced by SharedLoad (width 0 = interface).
 	SharedRoots map[string]bool
+	// WatchStores are cells whose stores are recorded as 'shared.store' events.
+	WatchStores map[string]bool
 	SharedLoad  func(root, path string, width int) Value
 	// TopReturns lists the returns of the entry function with their path predicates.
 	TopReturns []RetInfo
@@ -445,6 +450,9 @@ func (in *Interp) Store(st *State, pv Value, t types.Type, v Value, g bdd.Node, 
 	switch p := pv.(type) {
 	case *Ptr:
 		in.site("nil dereference (store)", p.Nil)
+		if in.WatchStores[p.Root] && !in.selfStore(st, p, v) {
+			in.T.Emit(in.C.M.And(in.curPred, g), "shared.store", p.Root, nil, 0, in.P.Pos(pos))
+		}
 		if p.Nil == bdd.True {
 			in.undecided(pos, "store through a nil pointer")
 		}
@@ -1078,6 +1086,8 @@ func (in *Interp) exec(fr *frame, instr ssa.Instruction, pred bdd.Node, st *Stat
 		name := "func value"
 		if f := x.Call.StaticCallee(); f != nil {
 			name = f.String()
+		} else if o, ok := in.operand(fr, x.Call.Value).(*Opaque); ok {
+			name = o.Why
 		}
 		fr.defers = append(fr.defers, name)
 	case *ssa.RunDefers:
@@ -1295,6 +1305,14 @@ func (in *Interp) unop(fr *frame, x *ssa.UnOp, pred bdd.Node, st *State) Value {
 			in.T.Emit(pred, "GlobalRead", pc.Ptrs[0].Root, nil, 0, in.P.Pos(x.Pos()))
 		}
 		return in.Load(st, v, x.Type(), x.Pos())
+	case token.ARROW:
+		if o, ok := v.(*Opaque); ok && strings.HasPrefix(o.Why, "done:") {
+			in.T.Emit(pred, "chan.recv", strings.TrimPrefix(o.Why, "done:"), nil, 0, in.P.Pos(x.Pos()))
+			if x.CommaOk {
+				return &Tuple{Elems: []Value{in.zero(x.Type().(*types.Tuple).At(0).Type()), in.C.Const(1, 0)}}
+			}
+			return in.zero(x.Type())
+		}
 	case token.NOT, token.XOR:
 		if bv, ok := v.(dom.BV); ok {
 			return in.C.Not(bv)
@@ -1564,6 +1582,23 @@ func (in *Interp) callInstr(fr *frame, x *ssa.Call, pred bdd.Node, st *State) Va
 		return res
 	}
 	name := fn.String()
+	if strings.HasSuffix(name, "]") && strings.Contains(name, ").") {
+		// drop the type arguments of an instantiated generic method:
+		// "(*sync/atomic.Pointer[error]).Load[error]" -> "(*sync/atomic.Pointer).Load"
+		var b strings.Builder
+		d := 0
+		for _, r := range name {
+			switch {
+			case r == '[':
+				d++
+			case r == ']':
+				d--
+			case d == 0:
+				b.WriteRune(r)
+			}
+		}
+		name = b.String()
+	}
 	in.Externals[name]++
 	if in.InterpretExternal[name] && fn.Blocks != nil {
 		res, out := in.callBound(fn, args, bindings, pred, st, x.Pos())
@@ -1945,4 +1980,21 @@ func (in *Interp) runConcrete(fn *ssa.Function, fr *frame, guard bdd.Node, st *S
 		}
 		prev, b = b, next
 	}
+}
+
+// ProbeBound interprets a function value (with its closure bindings).
+func (in *Interp) ProbeBound(fv *FuncV, args []Value, guard bdd.Node, st *State) {
+	depth, instr, pred := in.depth, in.curInstr, in.curPred
+	defer func() { in.depth, in.curInstr, in.curPred = depth, instr, pred }()
+	in.callBound(fv.Fn, args, fv.Bindings, guard, st, fv.Fn.Pos())
+}
+
+// selfStore: the value stored is the current content of the cell (the
+// 'x = x' a return with named results produces; the compiler drops it).
+func (in *Interp) selfStore(st *State, p *Ptr, v Value) bool {
+	if p.Idx != nil {
+		return false
+	}
+	cur, ok := st.Get(p.Root, p.Path)
+	return ok && SameValue(cur, v)
 }
